@@ -144,7 +144,7 @@ def check(col: Collector, tier: str):
             true_g = [t for t, tr in gs if tr]
             kind = None
             for t in true_g:
-                mm = _re.match(r"type\((\w+)\) is (\w+)$", t)
+                mm = _re.match(r"type\(([\w.]+)\) is (\w+)$", t)
                 if mm:
                     kind = mm.group(2)
             branches[kind] = c
